@@ -1,4 +1,4 @@
-import H2V.Lemmas.ConnFidPExact
+import H2V.Lemmas.ConnFidPSid
 /-
   C01 (stream layer) — message fidelity inside `proto/streams`: what the application submits on a stream
   reaches the codec (send side), and what the codec delivers reaches the application (receive side),
@@ -185,7 +185,7 @@ theorem poll_trailers_fifo_and_clean_end (s : Streams) (k : Nat) (t : String) :
 
 /-  Vocabulary of the history theorems (H2V/Lemmas/ConnFidPInv.lean, ConnFidPHist.lean, ConnFidPMain.lean):
     `ApiStep s w s' w'`  one operation of the connection task or of an application handle on the stream layer `s` and the
-                         codec `w`, with ARBITRARY arguments (46 constructors: the functions of `Streams` that ConnProto /
+                         codec `w`, with ARBITRARY arguments (47 constructors: the functions of `Streams` that ConnProto /
                          ConnDriver call, `poll_complete` with the codec threaded through, and `codec`: anything the codec does
                          that keeps the DATA frame it holds);  `Reach s w`: reached from a fresh stream layer by `ApiStep`s;
     `Hist s w g`         the same with the ghost log `g` of the history: `g.acc k` = message frames (HEADERS, DATA, PUSH_PROMISE)
@@ -364,6 +364,24 @@ theorem send_data_ok_extends_the_accepted_log_by_exactly_its_frame (s : Streams)
       (g'.acc k = g.acc k ++ [.data len eos] ∨ g'.acc k = g.acc k) :=
   h.refSendData_exact hw k len eos u hr
 
+/-- **The frame `pop_frame` hands to the codec carries the stream id of the entry whose queue it came from.**  As
+    `pop_frame_hands_out_what_it_took_off_the_queue`, with the id: for `DATA(len, flag_eos, { key, sid, rest, eos })` the entry
+    `key` of the state `pop_frame` started in has stream id `sid`; a HEADERS / PUSH_PROMISE frame labelled `sid` is the last
+    frame recorded as emitted for an entry `k` whose stream id is `sid` (`IdAt s k sid`: under the proviso that `k` is a key
+    the store has handed out, `k < next_key` — discharged in every history by the next theorem).  So what was accepted on a
+    stream is never emitted under the id of another stream. -/
+theorem pop_frame_labels_the_frame_with_the_id_of_its_stream (n m : Nat) (s : Streams) (g : Ghost) :
+    ∃ g', Run permPop s g (Streams.popFrame n s m).1 g' ∧ OutSid s g' m (Streams.popFrame n s m).2 :=
+  popFrame_sid n m s g
+
+/-- … **in every history** (codec holding no DATA frame, which is when `pop_frame` is called): the entry exists in the
+    state `pop_frame` started in and has the stream id the frame is labelled with (`HasId`). -/
+theorem in_every_history_frames_leave_under_the_id_of_their_stream (s : Streams) (w : Writer) (g : Ghost) (h : Hist s w g)
+    (hh : held w = none) (n m : Nat) :
+    ∃ g', Run permPop s g (Streams.popFrame n s m).1 g' ∧
+      (g'.weird = false → OutSidH s g' m (Streams.popFrame n s m).2) :=
+  h.popFrame_sid hh n m
+
 end H2V.Props.C01Streams
 
 #print axioms H2V.Props.C01Streams.splitting_carries_the_same_message
@@ -399,3 +417,5 @@ end H2V.Props.C01Streams
 #print axioms H2V.Props.C01Streams.reset_drops_only_its_own_chunk
 #print axioms H2V.Props.C01Streams.received_events_are_delivered_in_order_in_every_history
 #print axioms H2V.Props.C01Streams.send_data_ok_extends_the_accepted_log_by_exactly_its_frame
+#print axioms H2V.Props.C01Streams.pop_frame_labels_the_frame_with_the_id_of_its_stream
+#print axioms H2V.Props.C01Streams.in_every_history_frames_leave_under_the_id_of_their_stream
